@@ -155,6 +155,14 @@ theorem plain_of_rest {x : MEv} (h : x.type = mds_REST) : Plain x := by
   · rw [h]; intro hc; exact absurd hc (by decide)
   · rw [h]; intro hc; exact absurd hc (by decide)
 
+/-- which song event a data operand comes from: `key` is the `used_data_map` key the event's id
+maps to (data-bank index, tagged 0x20000 for a PCM instrument, 0x10000 for an extended envelope) -/
+def DataProv (d : DataInfo) (it : TraceItem) (key ty : Nat) : Prop :=
+  (it.ev.type = ev_INS ∧ ∃ idx tyI, d.envelopeMap.lookup it.ev.param = some idx ∧ d.insType.lookup it.ev.param = some tyI ∧
+    ((tyI ≠ mdsIns_INS_PCM ∧ key = idx ∧ ty = mds_INS) ∨ (tyI = mdsIns_INS_PCM ∧ key = 0x20000 + idx ∧ ty = mds_PCM))) ∨
+  (it.ev.type = ev_PITCH_ENVELOPE ∧ it.ev.param ≠ 0 ∧ ∃ idx, d.pitchMap.lookup it.ev.param = some idx ∧
+    key = (if d.pitchExtend.contains it.ev.param then 0x10000 + idx else idx) ∧ ty = mds_PEG)
+
 /-- what a successful hook call does -/
 inductive HookStep (song : Song) (d : DataInfo) (n : Nat) (c : Conv) (w : WState) (it : TraceItem) : Conv → WState → Prop
   | plain (w' : WState) (evs : List MEv) : w'.out = w.out ++ evs → (∀ ev ∈ evs, Plain ev) → HookStep song d n c w it c w'
@@ -168,7 +176,8 @@ inductive HookStep (song : Song) (d : DataInfo) (n : Nat) (c : Conv) (w : WState
   | data (key : Nat) (ty : Nat) (arg : Nat) (w' : WState) (pre : List MEv) :
       -- `ty`/`arg`: INS i | PCM i | PEG (i+1)
       ((ty = mds_INS ∨ ty = mds_PCM) ∧ arg = u16 (getEnvelope c key).2 ∨ ty = mds_PEG ∧ arg = u16 (wrap16 ((getEnvelope c key).2 + 1))) →
-      w'.out = w.out ++ pre ++ [⟨ty, arg⟩] → (∀ x ∈ pre, Plain x) → HookStep song d n c w it (getEnvelope c key).1 w'
+      w'.out = w.out ++ pre ++ [⟨ty, arg⟩] → (∀ x ∈ pre, Plain x) → DataProv d it key ty →
+      HookStep song d n c w it (getEnvelope c key).1 w'
   | mtab (c' : Conv) (id : Int) (w' : WState) (pre : List MEv) :
       it.ev.type = ev_PAN_ENVELOPE → it.ev.param ≠ 0 → getMacroTrack song d n c it.ev.param = .ok (c', id) →
       w'.out = w.out ++ pre ++ [⟨mds_MTAB, u16 (wrap16 (id + 1))⟩] → (∀ x ∈ pre, Plain x) → HookStep song d n c w it c' w'
@@ -364,11 +373,11 @@ theorem hook_step {song : Song} {d : DataInfo} (hpc : PlatformClean d) {n : Nat}
             · simp only [if_pos hp, Except.ok.injEq, Prod.mk.injEq] at h
               obtain ⟨rfl, rfl⟩ := h
               exact HookStep.data idx mds_INS _ _ pre (Or.inl ⟨Or.inl rfl, rfl⟩) (by simp [push, hpre]; first | rfl | decide)
-                (fun x hx => plain_of_rest (hrest x hx))
+                (fun x hx => plain_of_rest (hrest x hx)) (Or.inl ⟨t14, idx, ty, h2, h1, Or.inl ⟨hp, rfl, rfl⟩⟩)
             · simp only [if_neg hp, Except.ok.injEq, Prod.mk.injEq] at h
               obtain ⟨rfl, rfl⟩ := h
               exact HookStep.data (0x20000 + idx) mds_PCM _ _ pre (Or.inl ⟨Or.inr rfl, rfl⟩) (by simp [push, hpre]; first | rfl | decide)
-                (fun x hx => plain_of_rest (hrest x hx))
+                (fun x hx => plain_of_rest (hrest x hx)) (Or.inl ⟨t14, idx, ty, h2, h1, Or.inr ⟨Decidable.not_not.mp hp, rfl, rfl⟩⟩)
     rw [if_neg t14] at h
     by_cases t15 : it.ev.type = ev_TRANSPOSE
     · rw [if_pos t15] at h; plain_case
@@ -416,6 +425,7 @@ theorem hook_step {song : Song} {d : DataInfo} (hpc : PlatformClean d) {n : Nat}
           obtain ⟨rfl, rfl⟩ := h
           exact HookStep.data (if d.pitchExtend.contains it.ev.param then 0x10000 + idx else idx) mds_PEG _ _ pre
             (Or.inr ⟨rfl, rfl⟩) (by simp [push, hpre]; first | rfl | decide) (fun x hx => plain_of_rest (hrest x hx))
+            (Or.inr ⟨t20, hp, idx, hl, rfl, rfl⟩)
       · rw [if_neg hp] at h
         simp only [Except.ok.injEq, Prod.mk.injEq] at h
         obtain ⟨rfl, rfl⟩ := h
